@@ -385,6 +385,77 @@ def http_fuzz(ctx, env, watch):
                       % (url, role, st, key[5:], len(hits), ' '.join(h[0] for h in hits[1:3])), {'url': url, 'role': role, 'all': [h[0] for h in hits[:20]]}, key=key)
 
 
+def valid_values():
+    """option name -> values a client would legitimately send (choices listed by the option itself plus typical ones)"""
+    typical = {'aerr': ['503=4', '404=2,503=3', '503=12:00:00Z'], 'verr': ['503=4', '404=2', '503=11:59:50Z'], 'terr': ['404=2'], 'merr': ['503=1', '404=0', '503=12:00:05Z', '503=2023-01-01'],
+               'failures': ['0', '2'], 'update': ['1'], 'vcorrupt': ['3', '2,4'], 'frames': ['2'], 'acodec': ['mp4a', 'ec-3', 'ac-3'],
+               'tcodec': ['wvtt', 'stpp'], 'tlang': ['eng'], 'events': ['ping', 'scte35', 'ping,scte35'], 'drm': ['all', 'playready', 'clearkey-moov'],
+               'start': ['today', 'epoch', '2024-03-05T11:00:00Z'], 'depth': ['20', '0'], 'mup': ['4', '-1'], 'leeway': ['0', '30'],
+               'drift': ['5', '-5'], 'time': ['direct', 'xsd', 'iso', 'ntp', 'head', 'http-ntp'], 'timeline': ['1'], 'patch': ['1'],
+               'base': ['1'], 'abr': ['0'], 'bugs': ['saio'], 'ping__interval': ['200', '1000'], 'ping__count': ['3'],
+               'scte35__interval': ['500'], 'playready__version': ['1.0', '4.0'], 'playready__piff': ['0'], 'main_audio': ['bbb_a2'],
+               'ad_audio': ['bbb_a2'], 'main_text': ['bbb_t1'], 'ntp_servers': ['europe-ntp', 'google'], 'time_value': ['2024-03-05T12:00:00Z']}
+    out = {}
+    for n, o in option_names():
+        vals = list(typical.get(n, []))
+        for ch in (o.cgi_choices or ()):
+            v = ch[1] if isinstance(ch, tuple) else ch
+            if v not in (None, '') and str(v) not in vals:
+                vals.append(str(v))
+        if vals:
+            out[n] = vals[:6]
+    return out
+
+
+def valid_combinations(ctx, env, watch):
+    """pairs of LEGITIMATE option values on manifests and segments of full and video-only / audio-only streams"""
+    from ..appenv import Clock, utc
+    rng = ctx.rng
+    vals = valid_values()
+    names = sorted(vals)
+    c = env.client()
+    sites = collections.OrderedDict()
+    targets = ['/dash/%s/bbb/hand_made.mpd', '/dash/%s/bbb/manifest_e.mpd', '/dash/%s/clearonly/hand_made.mpd', '/dash/%s/audioonly/hand_made.mpd',
+               '/mps/%s/mps1/hand_made.mpd', '/dash/%s/bbb/bbb_v7/3.m4v', '/dash/%s/bbb/bbb_a1/3.m4a', '/dash/%s/bbb/bbb_v7_enc/3.m4v',
+               '/dash/%s/clearonly/co_v7/3.m4v']
+    pairs = [(a, b) for i, a in enumerate(names) for b in names[i:]]
+    if ctx.quick():
+        must = [p for p in pairs if p[0] in ('acodec', 'aerr', 'drm') or p[1] in ('aerr', 'verr', 'terr', 'merr')]
+        pairs = rng.sample(must, min(len(must), 60)) + rng.sample(pairs, 60)
+    with Clock(utc(2024, 3, 5, 12, 0, 7)):
+        for a, b in pairs:
+            for _ in range(1 if ctx.quick() else 2):
+                t = rng.choice(targets) % rng.choice(['vod', 'live'])
+                q = '%s=%s' % (a, urllib.parse.quote(rng.choice(vals[a])))
+                if b != a:
+                    q += '&%s=%s' % (b, urllib.parse.quote(rng.choice(vals[b])))
+                url = t + '?' + q
+                st, site, r = watch.get(c, url)
+                ctx.count('http:valid-pairs')
+                if st == 'HANG' or (isinstance(st, int) and st >= 500):
+                    if r is not None and r.get_data(as_text=True)[:9] == 'Synthetic':
+                        continue
+                    sites.setdefault('http:%s' % site, []).append((url, st))
+                elif st == 200:
+                    ctx.nontriv(url)
+        # event schedules at their boundaries: zero / negative interval, duration, start, timescale, count; unknown version
+        for ev in ('ping', 'scte35'):
+            for fld, bad in (('interval', ['0', '-5']), ('duration', ['-1', '0']), ('timescale', ['0', '-1']), ('start', ['-1']), ('count', ['-1']),
+                             ('version', ['7', '-1']), ('inband', ['0'])):
+                for b in bad:
+                    for t in ('/dash/vod/bbb/bbb_v7/1.m4v', '/dash/vod/bbb/bbb_v7/3.m4v', '/dash/live/bbb/hand_made.mpd', '/dash/vod/bbb/manifest_e.mpd'):
+                        for extra in ('', '&%s__inband=0&%s__count=2' % (ev, ev)):
+                            url = '%s?events=%s&%s__%s=%s%s' % (t, ev, ev, fld, b, extra)
+                            st, site, r = watch.get(c, url)
+                            ctx.count('http:event-boundaries')
+                            if st == 'HANG' or (isinstance(st, int) and st >= 500):
+                                sites.setdefault('http:%s' % (site or st), []).append((url, st))
+    for key, hits in sorted(sites.items()):
+        ctx.violation('GET %s answers %s: %s [%d requests with legitimate option values, e.g. %s]'
+                      % (hits[0][0], hits[0][1], key[5:], len(hits), ' '.join(h[0] for h in hits[1:3])),
+                      {'url': hits[0][0], 'all': [h[0] for h in hits[:20]]}, key=key)
+
+
 def missing_pieces(ctx, env, watch):
     """streams lacking encrypted media / audio / text / a timing reference"""
     from ..appenv import Clock, utc
@@ -406,7 +477,8 @@ def missing_pieces(ctx, env, watch):
                         '/dash/%s/%s/%s' % (mode, name, files[name].replace('/2.', '/init.'))]
                 for mft in ('hand_made.mpd', 'manifest_e.mpd', 'manifest_vod_aiv.mpd', 'manifest_a.mpd', 'manifest_n.mpd'):
                     for q in ('', '?drm=all', '?drm=playready', '?acodec=ec-3', '?events=ping', '?time=direct', '?tcodec=wvtt', '?patch=1',
-                              '?timeline=1', '?abr=0', '?main_audio=ao_a1&main_text=bbb_t1'):
+                              '?timeline=1', '?abr=0', '?main_audio=ao_a1&main_text=bbb_t1',
+                              '?aerr=503=4', '?verr=503=4', '?terr=404=2', '?merr=503=1&update=1', '?vcorrupt=3', '?acodec=ec-3&aerr=503=4'):
                         urls.append('/dash/%s/%s/%s%s' % (mode, name, mft, q))
                 urls.append('/play/%s/%s/hand_made/index.html' % (mode, name))
                 for url in urls:
@@ -414,6 +486,8 @@ def missing_pieces(ctx, env, watch):
                     ctx.count('http:missing-pieces')
                     ctx.dist('missing-pieces:%s' % (st if not isinstance(st, int) else '%dxx' % (st // 100)))
                     if st == 'HANG' or (isinstance(st, int) and st >= 500):
+                        if r is not None and r.get_data(as_text=True)[:9] == 'Synthetic':
+                            continue
                         sites.setdefault(('http:%s' % site, name), []).append((url, st))
     for (key, name), hits in sorted(sites.items()):
         ctx.violation('GET %s (stream "%s") answers %s: %s [%d requests, e.g. %s]'
@@ -605,6 +679,7 @@ def run(ctx):
     time_position_suite(ctx, env, watch)
     http_fuzz(ctx, env, watch)
     missing_pieces(ctx, env, watch)
+    valid_combinations(ctx, env, watch)
     mp4_fuzz(ctx, watch)
     upload_fuzz(ctx, env, watch)
     env.close()
